@@ -620,7 +620,8 @@ def search(ctx):
                 continue
             seen.add(cl)
             c = shrink(c, cl)
-            found.append(Failure(c, f"{cl}: property oracle fails on the implementation", on_impl=oracle(c)))
+            found.append(Failure(c, f"{cl}: property oracle fails on the implementation", on_impl=oracle(c),
+                                 key=KEY_EP_EMPTY if cl == "EP empty sub-event" else None))
             if len(found) >= 5:
                 break
     return found, n
